@@ -72,6 +72,21 @@ Theorem C02_add_compile_is_shapley : forall n K C rows labels dists ucols nulls 
   == shapley n (v_knn K C rows labels dists ucols nulls) i.
 Proof. exact add_compile_is_shapley. Qed.
 
+(* the same with compile()'s graph step inside the model (greedy leaf selection in any visiting order, any row-closed
+   partition of the units into components): nothing is assumed of numpy's argsort or scipy's connected components beyond
+   the boolean graph_ok, evaluated inside Coq on every instance *)
+Theorem C02_add_graph_is_shapley : forall n K C rows labels dists ucols nulls order components i,
+  (2 <= n)%nat -> (i < n)%nat -> (1 <= K)%nat ->
+  graph_ok n rows order components = true ->
+  (forall r, (r < length rows)%nat -> (nth r labels 0 < C)%nat) ->
+  (forall ds, In ds dists -> length ds = length rows /\ NoDup (map Qred ds)) ->
+  let comps := build_hints n rows order components in
+  nth i (shapley_add (map (fun ds => mkProb n rows labels ds (n - 1) K C) dists)
+                     (map (fun p => oracle_of p (compile_add (p_type p) comps) (map (row_locs 0 comps) (p_rows p)))
+                          (map (fun ds => mkProb n rows labels ds (n - 1) K C) dists)) ucols nulls n) 0
+  == shapley n (v_knn K C rows labels dists ucols nulls) i.
+Proof. exact add_graph_is_shapley. Qed.
+
 (* with pairwise distinct distances exactly one row of a K-or-more-element row set has rank K: the rank-based
    definition `nearest` selects exactly the K nearest rows *)
 Theorem C02_rank_count : forall (d : nat -> Q) (P : list nat), NoDup P ->
@@ -98,3 +113,4 @@ Print Assumptions C02_add_chain_is_shapley.
 Print Assumptions C02_sorted_definition_agrees.
 Print Assumptions C02_add_validated_is_shapley.
 Print Assumptions C02_add_compile_is_shapley.
+Print Assumptions C02_add_graph_is_shapley.
